@@ -381,6 +381,11 @@ func stepsim(t *testing.T, tp *simrt.Tape, opts RunOpts) *Outcome {
 		cfg.PreemptDelayNum = 2
 		schedCfg.StallPerM = 2
 	}
+	if sc.Variant == "timeout" {
+		// the bound after a timeout is a liveness statement: no injected stalls or slow ops in this variant
+		cfg.PreemptDelayNum, cfg.LatencyScale = 0, 0
+		schedCfg.StallPerM, schedCfg.LatScale = 0, 0
+	}
 	sc.Sched = schedCfg
 	cfg.TraceOps = opts.Trace
 	cfg.MaxFakeTime = 3 * time.Hour
@@ -557,19 +562,38 @@ func firstNonEmpty(a, b string) string {
 }
 
 func panicDisc(p string) string {
-	// first line after "panic: " up to newline, without addresses
+	// message (without addresses) plus the first two repository frames, so that
+	// different crashes have different signatures
 	i := strings.Index(p, "panic: ")
 	s := p
 	if i >= 0 {
 		s = p[i+7:]
 	}
-	if j := strings.IndexByte(s, '\n'); j >= 0 {
-		s = s[:j]
+	msg := s
+	if j := strings.IndexByte(msg, '\n'); j >= 0 {
+		msg = msg[:j]
 	}
-	if len(s) > 80 {
-		s = s[:80]
+	if len(msg) > 60 {
+		msg = msg[:60]
 	}
-	return s
+	var frames []string
+	for _, ln := range strings.Split(p, "\n") {
+		if !strings.HasPrefix(ln, "github.com/ErdemOzgen/blackdagger/") || strings.Contains(ln, "/verifsim/") {
+			continue
+		}
+		f := strings.TrimPrefix(ln, "github.com/ErdemOzgen/blackdagger/")
+		if k := strings.IndexByte(f, '('); k > 0 && strings.HasSuffix(f, ")") {
+			// strip the argument list of the frame line
+			if q := strings.LastIndexByte(f, '('); q > 0 {
+				f = f[:q]
+			}
+		}
+		frames = append(frames, f)
+		if len(frames) == 2 {
+			break
+		}
+	}
+	return msg + " @ " + strings.Join(frames, " < ")
 }
 
 type stepCheck struct {
